@@ -42,7 +42,7 @@ def exactness(rep, mir, L, n):
     xs = [z3.Real('x_%d' % i) for i in range(n)]
     for i in range(n):
         col = L.make('DrawGradCollector', {'draw': Seq([Fl(xs[i])]), 'grad': Seq([Fl(-(xs[i] - mean) / (s * s))]), 'is_good': True})
-        outs = vm.run(upd, [Ref(sc), math, Ref(m.alloc(col))], m)
+        outs = vm.merge_outcomes(vm.run(upd, [Ref(sc), math, Ref(m.alloc(col))], m))
         if len(outs) != 1 or outs[0][1] != 'ret': rep.violated('C08.1 update_estimators (n=%d)' % n, 'diag.exact.panic', 'update_estimators panics or forks: %s' % [(k, str(v)[:100]) for (_, k, v) in outs]); return
         m = outs[0][0]
     st = m.mem[sc]; rv = lambda f, fld: L.get('RunningVariance', L.get('Strategy', st, f, file=F), fld)
@@ -67,7 +67,7 @@ def exactness(rep, mir, L, n):
     if n == 3:
         # window switch on the real strategy, then the relations again on the estimator now in use
         sw = mir.method('Strategy', 'MassMatrixAdaptStrategy', 'switch', file=F)
-        o2 = vm.run(sw, [Ref(sc), math], m.clone())
+        o2 = vm.merge_outcomes(vm.run(sw, [Ref(sc), math], m.clone()))
         if len(o2) != 1 or o2[0][1] != 'ret': rep.violated('C08.1A switch', 'diag.exact.panic', 'switch panics or forks')
         else:
             st2 = o2[0][0].mem[sc]; rv2 = lambda f, fld: L.get('RunningVariance', L.get('Strategy', st2, f, file=F), fld)
@@ -84,7 +84,7 @@ def exactness(rep, mir, L, n):
             def feed(mach, cell):
                 for i in range(2):
                     col = L.make('DrawGradCollector', {'draw': Seq([Fl(ys[i])]), 'grad': Seq([Fl(-(ys[i] - mean) / (s * s))]), 'is_good': True})
-                    o = vm.run(upd, [Ref(cell), math, Ref(mach.alloc(col))], mach)
+                    o = vm.merge_outcomes(vm.run(upd, [Ref(cell), math, Ref(mach.alloc(col))], mach))
                     if len(o) != 1 or o[0][1] != 'ret': return None
                     mach = o[0][0]
                 return mach
@@ -283,7 +283,7 @@ def rescale_points(rep, mir, L, n, d=2):
     gs = [[-(xs[i][j] - mean[i]) / (sd[i] * sd[i]) for j in range(n)] for i in range(d)]
     m = Machine(); cd = m.alloc(Seq([Seq([Fl(xs[i][j]) for i in range(d)]) for j in range(n)])); cg = m.alloc(Seq([Seq([Fl(gs[i][j]) for i in range(d)]) for j in range(n)]))
     pre = [sd[i] > 0 for i in range(d)] + [z3.Or(*[xs[i][j] != xs[i][0] for j in range(1, n)]) for i in range(d)]
-    try: outs = vm.run(fn, [Ref(cd), Ref(cg)], m)
+    try: outs = vm.merge_outcomes(vm.run(fn, [Ref(cd), Ref(cg)], m))
     except (Unmodelled, VMError) as e:
         rep.unknown('C08.8 rescale_points', '%s: %s' % (type(e).__name__, str(e)[:200])); return
     rep.paths += len(outs); rep.absorb_vm(vm)
@@ -293,8 +293,8 @@ def rescale_points(rep, mir, L, n, d=2):
     dr = [[deref_val(vm, m1, c).items[i].v for c in m1.mem[cd].items] for i in range(d)]; gr = [[deref_val(vm, m1, c).items[i].v for c in m1.mem[cg].items] for i in range(d)]
     ax = _sqrt_axioms(A); bad = []
     sq = [(args[0], term) for (nm, args, term) in A.used if nm == 'sqrt']
-    def ask(name, hyp, cond, key):
-        verdict, model = rep.check('C08.8 rescale_points n=%d: %s' % (n, name), pre + ax + hyp + [cond], timeout_ms=120000)
+    def ask(name, hyp, cond, key, use_ax=True):
+        verdict, model = rep.check('C08.8 rescale_points n=%d: %s' % (n, name), pre + (ax if use_ax else []) + hyp + [cond], timeout_ms=120000)
         if verdict == 'violated':
             md = {dd.name(): str(model[dd]) for dd in model.decls() if dd.arity() == 0}
             bad.append(key); rep.violated('C08.8 n=%d %s' % (n, name), 'lowrank.rescale.' + key, 'rescale_points on a Gaussian window: %s fails: %s' % (name, md), model=md)
@@ -305,16 +305,21 @@ def rescale_points(rep, mir, L, n, d=2):
         inner = [a for (a, t) in sq if z3.eq(t, [a2 for (a2, t2) in sq if z3.eq(t2, stds[i])][0])] if any(z3.eq(t2, stds[i]) for (a2, t2) in sq) else []
         if not inner: rep.violated('C08.8 n=%d scale' % n, 'lowrank.rescale.scale', 'the scale of coordinate %d is not the square root of the square root of a variance ratio' % i); return
         q = inner[0]
-        ok = ask('coordinate %d: var(draws)/var(gradients) = s^4' % i, [], q != s_ * s_ * s_ * s_, 'ratio')
-        hyp = [q == s_ * s_ * s_ * s_]
-        ok = ok and ask('coordinate %d: scale = s' % i, hyp, stds[i] != s_, 'scale')
-        hyp = [stds[i] == s_]
-        if ok: ok = ask('coordinate %d: translation = mean of the Gaussian' % i, hyp, mu[i] != mean[i], 'translation')
+        ok = ask('coordinate %d: var(draws)/var(gradients) = s^4' % i, [], q != s_ * s_ * s_ * s_, 'ratio', use_ax=False)
+        # scale = sqrt(sqrt(q)) with q = s^4 (just shown): decided on the abstraction q -> Q (a fresh real), so that the size of the window does not enter
+        Q = z3.Real('ratio_%d' % i); t1 = [t for (a_, t) in sq if z3.eq(a_, q)][0]
+        ax_i = [z3.substitute(z3.Implies(a_ >= 0, z3.And(t * t == a_, t >= 0)), (q, Q)) for (a_, t) in sq if z3.eq(a_, q) or z3.eq(a_, t1)]
+        ok = ok and ask('coordinate %d: scale = s' % i, [Q == s_ * s_ * s_ * s_] + ax_i, z3.substitute(stds[i], (q, Q)) != s_, 'scale', use_ax=False)
+        # from here on the proven equalities are used by substitution (scale -> s, then translation -> m): the remaining obligations are identities of
+        # rational functions in the draws, no square-root term is left in them
+        sub1 = lambda e: z3.substitute(e, (stds[i], s_))
+        if ok: ok = ask('coordinate %d: translation = mean of the Gaussian' % i, [], sub1(mu[i]) != mean[i], 'translation', use_ax=False)
         if ok:
-            hyp = hyp + [mu[i] == mean[i]]
-            ask('coordinate %d: rescaled centred draws are (x_j - mean(x))/s and the gradients their negation' % i, hyp,
-                z3.Or(*([dr[i][j] != (xs[i][j] - xbar) / s_ for j in range(n)] + [gr[i][j] != -dr[i][j] for j in range(n)])), 'whitened')
-            ask('coordinate %d: reported pre-centring means are (mean(x) - m)/s and its negation' % i, hyp, z3.Or(dmo[i] != (xbar - mean[i]) / s_, gmo[i] != -(xbar - mean[i]) / s_), 'means')
+            sub2 = lambda e: z3.substitute(sub1(e), (sub1(mu[i]), mean[i]))
+            for j in range(n):
+                ask('coordinate %d, draw %d: rescaled centred draw is (x_j - mean(x))/s and the gradient its negation' % (i, j), [],
+                    z3.Or(sub2(dr[i][j]) != (xs[i][j] - xbar) / s_, sub2(gr[i][j]) != -sub2(dr[i][j])), 'whitened', use_ax=False)
+            ask('coordinate %d: reported pre-centring means are (mean(x) - m)/s and its negation' % i, [], z3.Or(sub2(dmo[i]) != (xbar - mean[i]) / s_, sub2(gmo[i]) != -(xbar - mean[i]) / s_), 'means', use_ax=False)
     if not bad: rep.holds('C08.8 rescale_points on %d Gaussian draws x %d coordinates: scale = s, translation = m, whitened gradients = -draws, reported means' % (n, d), time.time() - t0)
 
 def inner_matrix(rep, mir, L):
